@@ -69,6 +69,28 @@ impl Val for User3 {
     fn cw_eq(a: &CharwiseDoubleArrayAhoCorasick<Self>, b: &CharwiseDoubleArrayAhoCorasick<Self>) -> bool { a == b }
 }
 
+// A user-defined value type whose TryFrom<usize> rejects position 0 (like NonZeroU32): u32 on the wire.
+#[derive(Clone, Copy, PartialEq, Eq, Debug)]
+struct From1(u32);
+impl Serializable for From1 {
+    fn serialize_to_vec(&self, dst: &mut Vec<u8>) { dst.extend_from_slice(&self.0.to_le_bytes()); }
+    fn deserialize_from_slice(src: &[u8]) -> (Self, &[u8]) {
+        (From1(u32::from_le_bytes([src[0], src[1], src[2], src[3]])), &src[4..])
+    }
+    fn serialized_bytes() -> usize { 4 }
+}
+impl TryFrom<usize> for From1 {
+    type Error = ();
+    fn try_from(x: usize) -> Result<Self, ()> { if x >= 1 && x <= u32::MAX as usize { Ok(From1(x as u32)) } else { Err(()) } }
+}
+impl Val for From1 {
+    fn parse(s: &str) -> Self { From1(s.parse::<u32>().unwrap()) }
+    fn show(&self) -> String { format!("{}", self.0) }
+    const OUT_SIZE: usize = std::mem::size_of::<OutLayout<From1>>();
+    fn bw_eq(a: &DoubleArrayAhoCorasick<Self>, b: &DoubleArrayAhoCorasick<Self>) -> bool { a == b }
+    fn cw_eq(a: &CharwiseDoubleArrayAhoCorasick<Self>, b: &CharwiseDoubleArrayAhoCorasick<Self>) -> bool { a == b }
+}
+
 // ---------------------------------------------------------------- cases
 #[derive(Default, Clone)]
 struct Case {
@@ -270,6 +292,15 @@ fn run_bw<V: Val>(c: &Case, out: &mut String) {
         let d = p(catch_unwind(AssertUnwindSafe(|| { let _ = pma.find_overlapping_no_suffix_iter(h).count(); })));
         let e = p(catch_unwind(AssertUnwindSafe(|| { let _ = pma.leftmost_find_iter(h).count(); })));
         writeln!(out, "KINDCHK {a} {b} {d} {e}").unwrap();
+        // the byte-iterator entry points on every haystack of the case: each call must panic (kind
+        // assertion) or return; a hang is caught by the watchdog
+        let (mut a, mut b, mut d) = ("panic", "panic", "panic");
+        for h in &c.hays {
+            if catch_unwind(AssertUnwindSafe(|| { let _ = pma.find_iter_from_iter(h.iter().copied()).count(); })).is_ok() { a = "ok"; }
+            if catch_unwind(AssertUnwindSafe(|| { let _ = pma.find_overlapping_iter_from_iter(h.iter().copied()).count(); })).is_ok() { b = "ok"; }
+            if catch_unwind(AssertUnwindSafe(|| { let _ = pma.find_overlapping_no_suffix_iter_from_iter(h.iter().copied()).count(); })).is_ok() { d = "ok"; }
+        }
+        if !c.hays.is_empty() { writeln!(out, "KINDCHKI {a} {b} {d}").unwrap(); }
     }
     if c.ops.contains('R') {
         let mut src = img.clone();
@@ -456,6 +487,14 @@ fn run_cw<V: Val>(c: &Case, out: &mut String) {
         let d = p(catch_unwind(AssertUnwindSafe(|| { let _ = pma.find_overlapping_no_suffix_iter(h).count(); })));
         let e = p(catch_unwind(AssertUnwindSafe(|| { let _ = pma.leftmost_find_iter(h).count(); })));
         writeln!(out, "KINDCHK {a} {b} {d} {e}").unwrap();
+        let (mut a, mut b, mut d) = ("panic", "panic", "panic");
+        for h in &c.hays {
+            if std::str::from_utf8(h).is_err() { continue; }
+            if catch_unwind(AssertUnwindSafe(|| { let _ = unsafe { pma.find_iter_from_iter(h.iter().copied()) }.count(); })).is_ok() { a = "ok"; }
+            if catch_unwind(AssertUnwindSafe(|| { let _ = unsafe { pma.find_overlapping_iter_from_iter(h.iter().copied()) }.count(); })).is_ok() { b = "ok"; }
+            if catch_unwind(AssertUnwindSafe(|| { let _ = unsafe { pma.find_overlapping_no_suffix_iter_from_iter(h.iter().copied()) }.count(); })).is_ok() { d = "ok"; }
+        }
+        if !c.hays.is_empty() { writeln!(out, "KINDCHKI {a} {b} {d}").unwrap(); }
     }
     if c.ops.contains('R') {
         let mut src = img.clone();
@@ -521,7 +560,7 @@ fn run_case(c: &Case, out: &mut String) {
     match c.vt.as_str() {
         "u8" => go!(u8), "u16" => go!(u16), "u32" => go!(u32), "u64" => go!(u64), "u128" => go!(u128),
         "usize" => go!(usize), "i8" => go!(i8), "i16" => go!(i16), "i32" => go!(i32), "i64" => go!(i64),
-        "i128" => go!(i128), "isize" => go!(isize), "empty" => go!(Empty), "user3" => go!(User3),
+        "i128" => go!(i128), "isize" => go!(isize), "empty" => go!(Empty), "user3" => go!(User3), "from1" => go!(From1),
         t => panic!("unknown value type {t}"),
     }
 }
